@@ -1537,7 +1537,7 @@ def build_units(full: bool) -> List[Tuple[str, Any]]:
     for g in ag.mesh_grid_cases(full):
         units.append(("mesh-grid", [g]))
     extra = 3 if full else 2   # arrival sequences of length n+2 (quick) / n+3 (thorough); shorter ones are their prefixes
-    for mode in (MODES if full else tuple(m for m in MODES if m != "xfer-turbo")):   # turbo only changes the acks sent
+    for mode in MODES:   # turbo (ack-ahead) takes its own path through the receive handler: in both tiers
         proto = mode.split("-")[0]
         sizes = transfer_sizes(proto)
         if not full:   # quick: the boundary triple of every chunk count, not the extra m*chunk / m*chunk+1 sizes
@@ -1615,7 +1615,7 @@ def run(run: Run):
                      "str and bytes entry points at node and model level; models edited after parse (rename, item fields, category "
                      "fields, unlink, add, upsert). InventoryModel.from_reader(read_header=...) is ignored by the code",
         "Wearable": "no options (from_str and from_bytes both used)",
-        "Xfer/Transfer": "XferManager.request(turbo) False/True (True in thorough only), direct handler and request()+pump; "
+        "Xfer/Transfer": "XferManager.request(turbo) False/True, direct handler and request()+pump; "
                          "serve_inbound_xfer_request(wait_for_confirm) False (sender runs) and True (end-to-end upload). NOT varied: "
                          "use_big_packets / delete_on_completion / file_path (only copied into the RequestXfer message), "
                          "UploadStrategy override, TransferManager.request(channel_type, priority)",
